@@ -619,7 +619,10 @@ pub fn driver_main(def: &CheckDef, tier: Tier, seed: u64) -> i32 {
     for (i, st, err) in &statuses {
         let rpath = dir.join(format!("result-{i}.json"));
         if !st.success() || !rpath.exists() {
-            if st.code().is_none() || st.code() == Some(101) || st.code() == Some(134) {
+            // exit code 3 is the harness's own "infrastructure problem" exit; every other abnormal end
+            // (signal, abort, panic exit 101, abi_stable's exit(1) on a panic crossing the plugin
+            // boundary) happened inside the code under test while running the recorded case
+            if st.code() != Some(3) {
                 // died on a signal / abort: the last recorded case is the replay file
                 let cur = dir.join(format!("current-{i}.json"));
                 let case = std::fs::read_to_string(&cur).ok().and_then(|s| serde_json::from_str::<Value>(&s).ok()).unwrap_or(Value::Null);
